@@ -61,8 +61,8 @@ def gen_prog(rng, name="p", depth=0, max_stmts=8, fid_base=0, p_flag=0.2, p_sub=
     fid_base = ctr[0]
     ctr[0] += 10
     nreq = rng.randint(0, 2)
-    ndef = rng.randint(0, 2)
-    params = [dict(name="a%d" % i, default=None) for i in range(nreq)] + [dict(name="d%d" % i, default=[rng.randrange(50), rng.random() < 0.6]) for i in range(ndef)]
+    ndef = rng.choice([0, 1, 2, 2, 3]) if depth > 0 else rng.randint(0, 2)
+    params = [dict(name="a%d" % i, default=None) for i in range(nreq)] + [dict(name="d%d" % i, default=("NONE" if rng.random() < (0.3 if depth > 0 else 0.12) else [rng.randrange(50), rng.random() < 0.6])) for i in range(ndef)]
     nst = rng.randint(1, max_stmts)
     stmts = []
     vinfo = []
@@ -89,7 +89,7 @@ def gen_prog(rng, name="p", depth=0, max_stmts=8, fid_base=0, p_flag=0.2, p_sub=
             subs.append(sub)
             nsp = len(sub["params"])
             nrq = sum(1 for p in sub["params"] if p["default"] is None)
-            nargs = rng.randint(nrq, nsp)
+            nargs = nrq if rng.random() < 0.45 else rng.randint(nrq, nsp)
             st = dict(op="sub", d=len(subs) - 1, args=[gen_expr(rng, i, vinfo, np_) for _ in range(nargs)], active=gen_flag(rng, i, vinfo, np_) if sub_active else None)
             vinfo.append(ret_shape(sub["ret"]))
         elif r < p_sub + 0.15 and i > 0:
@@ -107,8 +107,9 @@ def gen_prog(rng, name="p", depth=0, max_stmts=8, fid_base=0, p_flag=0.2, p_sub=
             else:
                 # comparisons / unary operators: the left operand is always a term (parameter or constant);
                 # Python would otherwise dispatch to the reflected comparison with swapped operands
-                if np_:
-                    args[0] = ["param", rng.randrange(np_)]
+                termp = [j_ for j_, p_ in enumerate(params) if p_["default"] != "NONE"]  # parameters that are terms for sure
+                if termp:
+                    args[0] = ["param", rng.choice(termp)]
                 else:
                     o = "add"
                     args = [["const", rng.randrange(50), True], var_ref(rng, rng.randrange(i), vinfo)]
@@ -143,6 +144,9 @@ def gen_prog(rng, name="p", depth=0, max_stmts=8, fid_base=0, p_flag=0.2, p_sub=
         ret["keys"] = ["r%d" % t for t in range(len(ret["items"]))]
     else:
         ret = dict(shape=shape, items=[gen_expr(rng, nv, vinfo, len(params)) for _ in range(rng.randint(1, 4))])
+    whole = [i for i, st in enumerate(stmts) if st["op"] == "sub" and subs[st["d"]]["ret"]["shape"] in ("tuple", "list", "dict")]
+    if whole and depth == 0 and rng.random() < 0.35:
+        ret = dict(shape="whole", items=[["whole", rng.choice(whole)]])
     fails = [j for j in range(nfun) if rng.random() < p_fail]
     return dict(name=name, params=params, funs=funs, stmts=stmts, ret=ret, subs=subs, fails=fails,
                 maxc=rng.randint(1, 4), is_async=rng.random() < 0.3)
@@ -163,6 +167,8 @@ def ret_items(ret):
 
 
 def ret_shape(ret):
+    if ret["shape"] == "whole":
+        return ("plain",)
     if ret["shape"] in ("tuple", "list"):
         return ("tuple", len(ret["items"]))
     if ret["shape"] == "dict":
@@ -294,6 +300,8 @@ def body(prog, F, S, L, recorder=None, override=None):
         if override is not None and "__outs__" in override:
             return [env[i] for i in override["__outs__"]]
         r = prog["ret"]
+        if r["shape"] == "whole":
+            return env[r["items"][0][1]]
         items = [ev(e, env, params) for e in r["items"]]
         if r["shape"] == "none":
             return None
@@ -309,7 +317,7 @@ def body(prog, F, S, L, recorder=None, override=None):
     run.__name__ = prog["name"]
     run.__signature__ = inspect.Signature([
         inspect.Parameter(p["name"], inspect.Parameter.POSITIONAL_OR_KEYWORD,
-                          default=inspect.Parameter.empty if p["default"] is None else Const(*p["default"])) for p in prog["params"]])
+                          default=inspect.Parameter.empty if p["default"] is None else default_value(p)) for p in prog["params"]])
     return run
 
 
@@ -377,7 +385,7 @@ def build_plain(prog, counter=None, override=None):
     def with_defaults(*a):
         if len(a) > len(top):
             raise TypeError("too many arguments")
-        return run(*(list(a) + [Const(*p["default"]) for p in top[len(a):]]))
+        return run(*(list(a) + [default_value(p) for p in top[len(a):]]))
     return with_defaults
 
 
@@ -393,6 +401,10 @@ def deactivated_shape(ret):
     if ret["shape"] == "dict":
         return {k: None for k in ret["keys"]}
     return None
+
+
+def default_value(p):
+    return None if p["default"] == "NONE" else Const(*p["default"])
 
 
 def gen_args(rng, prog):
